@@ -31,6 +31,13 @@ def wrap(v, ty):
     return v
 
 
+class Closure:
+    def __init__(self, fkey, caps, this_env):
+        self.fkey = fkey
+        self.caps = caps
+        self.this_env = this_env
+
+
 class Evaluator:
     """Evaluates expression trees with an environment {access path or var id -> int}."""
 
@@ -40,6 +47,7 @@ class Evaluator:
         self.enum_types = enum_types or {}
         self.stubs = stubs or {}          # qualified callee name -> f(evaluator, call tree, env, depth) -> value
         self.ctor_hook = ctor_hook        # f(class name, [argument values]) -> value, or None
+        self.lenient_return = False
 
     def eval(self, t, env, depth=0):
         if not isinstance(t, dict):
@@ -106,9 +114,55 @@ class Evaluator:
                 if r is not None:
                     return r
             raise Unknown('ctor')
+        if k == 'str':
+            return t.get('v', '')
+        if k == 'idx':
+            base = self.eval(t.get('b'), env, depth)
+            i = self.eval(t.get('i'), env, depth)
+            if isinstance(base, str):
+                # a string literal table: in-bounds characters, the terminating NUL at the end
+                if 0 <= i < len(base):
+                    return ord(base[i])
+                if i == len(base):
+                    return 0
+                raise Unknown('string index out of range')
+            if isinstance(base, (list, tuple)) and 0 <= i < len(base):
+                return base[i]
+            raise Unknown('index into ' + str(type(base).__name__))
+        if k == 'lambda':
+            # a closure: the captured values as they are now (by-reference captures are read at creation too: the
+            # evaluator only invokes closures synchronously, right after they were built)
+            caps = {}
+            for c in t.get('caps', []):
+                if c.get('this'):
+                    continue
+                key = ('v', c.get('id'))
+                if key in env:
+                    caps[c.get('n')] = env[key]
+            return Closure(t.get('f'), caps, {k2: v2 for k2, v2 in env.items() if isinstance(k2, str) and k2.startswith('this.')})
         if 'cv' in t:
             return t['cv']
         raise Unknown('node ' + str(k))
+
+    def invoke(self, closure, args, depth=0):
+        """Run the body of a closure built by eval() on concrete argument values."""
+        func = self.fb.funcs.get(closure.fkey)
+        if func is None or not func.has_cfg:
+            raise Unknown('closure body')
+        env = dict(closure.this_env)
+        for p_, a_ in zip(func.d.get('params', []), args):
+            env[('v', p_['id'])] = a_
+        from .core import walk
+        for _, _, e in func.events():
+            for n in walk(e):
+                if n.get('k') == 'var' and n.get('n') in closure.caps and 'id' in n:
+                    env.setdefault(('v', n['id']), closure.caps[n['n']])
+        for bid, blk in func.blocks.items():
+            c = (blk.get('term') or {}).get('cond')
+            for n in (walk(c) if c is not None else []):
+                if n.get('k') == 'var' and n.get('n') in closure.caps and 'id' in n:
+                    env.setdefault(('v', n['id']), closure.caps[n['n']])
+        return self.run(func, env, depth + 1)
 
     def binop(self, op, a, b, ty):
         if op == '+': r = a + b
@@ -186,7 +240,12 @@ class Evaluator:
             for e in blk['ev']:
                 k = e.get('k')
                 if k == 'ret':
-                    v = self.eval(e['e'], env, depth) if e.get('e') is not None else None
+                    try:
+                        v = self.eval(e['e'], env, depth) if e.get('e') is not None else None
+                    except Unknown:
+                        if not self.lenient_return:
+                            raise
+                        v = None        # the caller is interested in the effects seen by its stubs, not in the value
                     rt = func.d.get('ret')
                     if v is not None and rt == 'bool':
                         v = 1 if v else 0
@@ -233,6 +292,10 @@ class Evaluator:
                         env[tgt] = self.eval(e['args'][0], env, depth)
                     except Unknown:
                         env.pop(tgt, None)
+                    continue
+                elif k == 'call' and cname(e) in self.stubs:
+                    # a stubbed callee at statement level is run for its effect (value ignored)
+                    self.stubs[cname(e)](self, e, env, depth)
                     continue
                 elif k == 'call':
                     # calls are evaluated where their value is used; a call on `this` to a non-const
